@@ -34,12 +34,10 @@ func NewConcurrentMiddlewareWithLogger(logger logging.Logger, remote *config.Bac
 			results := make(chan *Response, remote.ConcurrentCalls)
 			failed := make(chan error, remote.ConcurrentCalls)
 
+			// every attempt works on its own copy: an attempt can outlive this call (it returns on
+			// the first complete answer) and the caller goes on using its request
 			for i := 0; i < remote.ConcurrentCalls; i++ {
-				if i < remote.ConcurrentCalls-1 {
-					go processConcurrentCall(localCtx, next[0], CloneRequest(request), results, failed)
-				} else {
-					go processConcurrentCall(localCtx, next[0], request, results, failed)
-				}
+				go processConcurrentCall(localCtx, next[0], CloneRequest(request), results, failed)
 			}
 
 			var response *Response
